@@ -152,6 +152,8 @@ def r2(ctx, prog, ev, rep):
                 return True
             if t in pr:
                 return pr[t] <= good_slots
+            if t.k == "proj" and t.a[1] == "Option::Some.0":
+                return is_ast(t.a[0])           # the payload of an Option<AST integer>
             return False
         updates = {}
         for s0 in sites:
@@ -163,7 +165,7 @@ def r2(ctx, prog, ev, rep):
             if vid not in updates and vals:
                 updates[vid] = [(v, ()) for v in vals]
         iv = Intervals(ast_ints=is_ast, updates=updates)
-        iv_if_validated = Intervals(ast_ints=lambda t, pr=pr: unval_pred(t) or t in pr, updates=updates)
+        iv_if_validated = Intervals(ast_ints=lambda t, pr=pr: unval_pred(t) or t in pr or (t.k == "proj" and t.a[1] == "Option::Some.0" and (unval_pred(t.a[0]) or t.a[0] in pr)), updates=updates)
         ta = 0
         for s in sites:
             node, term, pc = s["node"], s["term"], s["pc"]
@@ -237,6 +239,12 @@ def r2(ctx, prog, ev, rep):
                             extra = ": the operand comes from the AST, and the parser stores %s without range validation (C07-R2), so " \
                                     "i64::MIN reaches this call" % [lab for lab, _, _, cls2 in slot_sites if any(c == "unvalidated" for c, _ in cls2)]
                         rep.bad("C08-R2", key, T.loc(node), "`abs` overflows (panics) for i64::MIN and the operand `%s` is not bounded away from it%s" % (_short(term.a[1]), extra))
+                elif cls == "vec-op" and name.endswith("::insert") and len(term.a) == 4 and term.a[2].k == "lit" and term.a[2].a[1] == "0":
+                    n_other += 1
+                    rep.ok("C08-R2", key, T.loc(node), "insert at index 0 is always in bounds")
+                elif cls == "step_by" and len(term.a) == 3 and iv.iv(term.a[2], pc)[0] >= 1:
+                    n_other += 1
+                    rep.ok("C08-R2", key, T.loc(node), "step_by with a step >= 1 (from the enclosing guard)")
                 else:
                     n_other += 1
                     rep.bad("C08-R2", key, T.loc(node), "`%s` panics on a value condition (%s) and no proof rule covers it" % (name, cls), status="unrecognised")
@@ -631,6 +639,8 @@ def r4(ctx, prog, rep):
         key = "cycle:%s" % cls
         if len(set(members)) == 1:
             key += ":" + name.rsplit("::", 1)[1]
+        elif not any((cls, m) in CYCLE_ANCHORS for m in members):
+            key += ":" + name            # a cycle other than the recorded ones of its class
         rep.check(bounded, "C08-R4", key, prog.loc_of(name), "depth-bounded",
                   "recursion cycle of %d function(s) (%s, e.g. `%s`) has no depth bound: nesting depth of the input decides the "
                   "stack depth (deeply nested input overflows the stack)" % (len(set(members)), cls, name))
@@ -638,6 +648,14 @@ def r4(ctx, prog, rep):
     fx = ctx.fixture
     fs = [c for c in fx.sccs() if len(c) > 1 or c[0] in [nm for nm, _ in fx.edges().get(c[0], [])]]
     rep.control("C08-R4", any("c08_recursion" in c[0] for c in fs), "fixture self-recursive function")
+
+
+# first member (sorted) of the cycles recorded as known findings: a *different* cycle of the same class gets its own key
+CYCLE_ANCHORS = {
+    ("pest-generated-parser", "<crate::parser::JSPathParser as pest::parser::Parser<crate::parser::Rule>>::parse::rules::visible::atom_expr"),
+    ("ast-builders", "crate::parser::child_segment"),
+    ("evaluator", "crate::query::atom::<impl crate::query::Query for crate::parser::model::FilterAtom>::process"),
+}
 
 
 def classify_cycle(prog, members):
